@@ -107,6 +107,9 @@ def check_C06(ctx):
         "tokio's paused clock drives crate::time::Instant (hook H1)",
         "the harness transports observations faithfully (vh tokens)",
         "MC is exhaustive only up to MAXSTEPS events over the boundary alphabet of time steps",
+        "the time bounds (>= 10 min, < 30 min) of the two-secret mechanism are additionally PROVED for unbounded time and arbitrary time "
+        "steps by an inductive invariant checked with Apalache (spec/proof/TokenInd.tla: a restatement of the mechanism over integers, one "
+        "arbitrary tracked token); this says nothing about the code beyond what the trace validation binds",
     ]
     q = ctx.quick
     ips = '"a4", "b4", "c6"'
@@ -120,6 +123,14 @@ def check_C06(ctx):
     neg = vlib.tlc("mc/MC_Token.tla", ctx.cfg("neg.cfg", TOKEN_CFG % dict(
         ips=ips, deltas=TOKEN_DELTAS, steps=5, keep="FALSE", gen="FALSE", emit="")), workers=4, timeout=600)
     vlib.require_mc_fails(neg, "VerdictsOK", "KEEP_BOTH=FALSE")
+    # 2b. unbounded time: the inductive invariant of spec/proof/TokenInd.tla (one arbitrary tracked token, arbitrary time steps)
+    #     discharged by Apalache: Init => IndInv, IndInv /\ Next => IndInv', and IndInv contains the statement
+    for init, length in (("Init", 0), ("IndInit", 1)):
+        ok, out, wall, cmd = vlib.apalache("proof/TokenInd.tla", init, "IndInv", length)
+        if not ok:
+            raise ToolError("the inductive invariant of the token mechanism was not discharged (%s, length %d):\n%s" % (init, length, out[-1500:]))
+        ctx.cov.setdefault("inductive_invariant", []).append({"obligation": "%s => IndInv%s" % (init, "" if length == 0 else "'  (one step of Next)"),
+                                                               "checker_cmd": cmd, "wall_s": round(wall, 1), "outcome": "NoError"})
     # 3. binding: behaviours of the model replayed against the real TokenStore
     beh = ctx.path("behaviours.ndjson")
     g1 = vlib.tlc("mc/MC_Token.tla", ctx.cfg("gen1.cfg", TOKEN_CFG % dict(
